@@ -6,7 +6,7 @@ from typing import Dict, List, Optional, Set
 
 from .. import memo, q
 from ..boolterm import head_name
-from ..core import order_key, AnchorError, Ctx, FuncInfo, dotted, guard_facts, norm, returns_or_raises_everywhere, walk_no_nested
+from ..core import canon_fact, primary_facts, order_key, AnchorError, Ctx, FuncInfo, dotted, guard_facts, norm, returns_or_raises_everywhere, walk_no_nested
 from ..rewrite import check_arity, check_total
 from . import c04
 
@@ -199,7 +199,7 @@ def check_compile_loop(ctx: Ctx, ic):
         raise AnchorError(fi.short, "expected one qc.uncompute_all call")
     facts = [norm(e) for e, pol in guard_facts(fi, ua[0]) if pol]
     ctx.check("uncompute" in facts, "MP-flag", fi, "final uncompute under the `uncompute` flag", f"guards={facts}", f"uncompute_all is guarded by {facts}, not by the uncompute flag", ua[0])
-    others = [("" if pol else "not ") + norm(e) for e, pol in guard_facts(fi, ua[0]) if not (pol and norm(e) in ("uncompute", "returns is not None"))]
+    others = [("" if pol else "not ") + t for t, pol in (canon_fact(e, p_) for e, p_ in primary_facts(guard_facts(fi, ua[0]))) if (t, pol) not in (("uncompute", True), ("returns is None", False))]
     ctx.check(not others, "MP-flag", fi, "no other condition on the final uncompute", "", f"uncompute_all is additionally conditioned on {others}", ua[0])
 
 
